@@ -1,7 +1,9 @@
 import NmVerif.Proto
 import NmVerif.Index.Reduce
+import NmVerif.Index.ReduceTrace
 /-
-  Driver handler of C08: answers `reduce` / `accumulate` / `remove_dims` / `reduction_slices` requests with the MODEL
+  Driver handler of C08: answers `reduce` / `accumulate` / `remove_dims` / `reduction_slices` / `mean` / `var` / `stddev` /
+  `vector_norm` / `trace` requests with the MODEL
   (NmVerif.Reduce).  Element type `Int`; the binary op is selected by name.  Keys the harness needs to pick an API
   entry point (`api=`, `kd=`, `ax=`, `dtype=`) do not change the model's answer and are ignored here.
 -/
@@ -23,6 +25,13 @@ def opOf : String → Option (Int → Int → Int)
   | "bxor" => some (fun a b => (Nat.xor a.toNat b.toNat : Nat))
   | "land" => some (fun a b => if a ≠ 0 ∧ b ≠ 0 then 1 else 0)
   | "lor" => some (fun a b => if a ≠ 0 ∨ b ≠ 0 then 1 else 0)
+  | _ => none
+
+/-- `op_type::identity()` of the library functors that declare one (add, multiply); the order-revealing functor of the
+    harness and the others have none -/
+def identOf : String → Option Int
+  | "add" => some 0
+  | "mul" => some 1
   | _ => none
 
 def dataOf (a : Args) (s : Shape) : Option (List Int) :=
@@ -53,13 +62,14 @@ def handle : Handler := fun op a =>
   match op with
   | "reduce" => orBad do
       let f ← (a.get? "op").bind opOf
+      let ident := (a.get? "op").bind identOf
       let s ← a.nats "shape"
       let axis ← a.optInts "axis"
       let keep := (a.get? "keepdims") == some "1"
       let init ← a.optInt "init"
       let data ← dataOf a s
       let arr := arrOfData s data
-      match reduce f init arr axis keep with
+      match reduceId ident f init arr axis keep with
       | none => pure "ub"
       | some v =>
         match evalFlat v with
@@ -108,17 +118,33 @@ def handle : Handler := fun op a =>
       let s ← a.nats "shape"
       let axis ← a.optInts "axis"
       let keep := (a.get? "keepdims") == some "1"
-      let ord ← a.nat "ord"
+      let ordn ← a.nat "ord"
+      -- a real order is written `ord=5 ordden=2`
+      let den := ((a.get? "ordden").bind (·.toNat?)).getD 1
+      let ord : Float := ordn.toFloat / den.toFloat
       let data ← dataOf a s
       let arr : Arr Float := ⟨s, fun i => Float.ofInt ((arrOfData s data).get i)⟩
-      let pre := fun (x : Float) => Float.pow x.abs ord.toFloat
-      let post := fun (y : Float) => Float.pow y (1.0 / ord.toFloat)
+      let pre := fun (x : Float) => Float.pow x.abs ord
+      let post := fun (y : Float) => Float.pow y (1.0 / ord)
       match vectorNorm (· + ·) pre post arr axis keep with
       | none => pure "ub"
       | some v =>
         match evalFlat v with
         | none => pure "ub"
         | some l => pure s!"ok shape={fmtNats v.shape} data={fmtFloats l}"
+  | "trace" => orBad do
+      -- integer-valued data; the sum is exact in every element type the harness uses
+      let s ← a.nats "shape"
+      let off ← a.int "offset"
+      let a1 ← a.int "axis1"
+      let a2 ← a.int "axis2"
+      let data ← dataOf a s
+      match trace (· + ·) (some 0) (arrOfData s data) off a1 a2 with
+      | none => pure "ub"
+      | some v =>
+        match evalFlat v with
+        | none => pure "ub"
+        | some l => pure s!"ok shape={fmtNats v.shape} data={fmtInts l}"
   | "remove_dims" => orBad do
       let s ← a.nats "shape"
       let axis ← a.optInts "axis"
